@@ -17,12 +17,13 @@ import (
 // restart. Each property only changes weights and enabled fault kinds.
 type scLife struct {
 	baseScn
-	prop     string
-	restarts int
-	maxRest  int
-	closeAt  int
-	badDone  bool
-	groups   []string // C14: one group name per member
+	prop        string
+	restarts    int
+	maxRest     int
+	closeAt     int
+	badDone     bool
+	groups      []string // C14: one group name per member
+	endsInClose int
 }
 
 func init() {
@@ -362,6 +363,32 @@ func (s *scLife) Actions(w *World) []Action {
 				w.fault("mgmt:"+next, "")
 			}
 		}})
+	}
+	if s.prop == "C13" && w.cfg.Faults && s.endsInClose < 2 {
+		// a stream ends with a connection-type status while the shutdown is closing the streams
+		w.mu.Lock()
+		for _, st := range w.sortedStreams() {
+			st := st
+			m := w.members[st.conn.member-1]
+			if !st.open || !m.closing || m.stopped || m.crashed {
+				continue
+			}
+			for _, es := range []struct {
+				name   string
+				status int
+			}{{"state-changed", 2}, {"disconnected", 3}, {"too-slow", 4}} {
+				es := es
+				acts = append(acts, Action{ID: fmt.Sprintf("end-during-close|%s|%s", es.name, st.sid), W: 2, Do: func() {
+					s.endsInClose++
+					w.fault("end-during-close:"+es.name, st.sid)
+					w.mu.Lock()
+					st.endStat = es.status
+					w.cl.emitEnd(st)
+					w.mu.Unlock()
+				}})
+			}
+		}
+		w.mu.Unlock()
 	}
 	if w.disk != nil && w.cfg.Faults && (s.prop == "C05" || s.prop == "C13") {
 		// the next write of the checkpoint file fails: disk full (file already truncated), I/O error (file
